@@ -1,0 +1,12 @@
+//go:build verif
+
+package router
+
+import "syscall"
+
+// Add-only hook for the C17 correspondence check (kind sockopts): the REAL controlSocket callback for a
+// SocketConfig, with the internal TCP_USER_TIMEOUT field (set by listen() / initUpstream) given in ms.
+func VerifC17ControlSocket(opt SocketConfig, tcpUserTimeoutMs uint) func(network, address string, c syscall.RawConn) error {
+	opt._TCP_USER_TIMEOUT = tcpUserTimeoutMs
+	return controlSocket(opt)
+}
